@@ -127,6 +127,29 @@ impl<R: io::Read> Parse<R> for Option<i64> {
 }
 
 
+//------------ Helper Functions ----------------------------------------------
+
+/// Reads exactly `len` bytes into a new vec.
+///
+/// Since `len` may come from corrupt data, it isn’t trusted for allocating
+/// the memory. Instead, the vec grows while data is actually being read.
+fn read_vec<R: io::Read>(
+    source: &mut R, len: usize
+) -> Result<Vec<u8>, io::Error> {
+    let mut res = Vec::new();
+    let read = io::Read::read_to_end(
+        &mut io::Read::take(source, u64::try_from(len).unwrap_or(u64::MAX)),
+        &mut res
+    )?;
+    if read != len {
+        return Err(io::Error::new(
+            io::ErrorKind::UnexpectedEof, "failed to fill whole buffer"
+        ))
+    }
+    Ok(res)
+}
+
+
 //----------- uri::Rsync -----------------------------------------------------
 //
 // Encoded as a u32 for the length and then that many bytes. If the length
@@ -146,8 +169,7 @@ impl<R: io::Read> Parse<R> for uri::Rsync {
         let len = usize::try_from(u32::parse(source)?).map_err(|_| {
             ParseError::format("URI too large for this system")
         })?;
-        let mut bits = vec![0u8; len];
-        source.read_exact(&mut bits)?;
+        let bits = read_vec(source, len)?;
         Self::from_bytes(bits.into()).map_err(|err| {
             ParseError::format(format!("bad URI: {err}"))
         })
@@ -174,8 +196,7 @@ impl<R: io::Read> Parse<R> for uri::Https {
         let len = usize::try_from(u32::parse(source)?).map_err(|_| {
             ParseError::format("URI too large for this system")
         })?;
-        let mut bits = vec![0u8; len];
-        source.read_exact(&mut bits)?;
+        let bits = read_vec(source, len)?;
         Self::from_bytes(bits.into()).map_err(|err| {
             ParseError::format(format!("bad URI: {err}"))
         })
@@ -211,8 +232,7 @@ impl<R: io::Read> Parse<R> for Option<uri::Https> {
         let len = usize::try_from(len).map_err(|_| {
             ParseError::format("URI too large for this system")
         })?;
-        let mut bits = vec![0u8; len];
-        source.read_exact(&mut bits)?;
+        let bits = read_vec(source, len)?;
         uri::Https::from_bytes(bits.into()).map_err(|err| {
             ParseError::format(format!("bad URI: {err}"))
         }).map(Some)
@@ -239,8 +259,7 @@ impl<R: io::Read> Parse<R> for Bytes {
         let len = usize::try_from(u64::parse(source)?).map_err(|_| {
             ParseError::format("data block too large for this system")
         })?;
-        let mut bits = vec![0u8; len];
-        source.read_exact(&mut bits)?;
+        let bits = read_vec(source, len)?;
         Ok(bits.into())
     }
 }
@@ -271,8 +290,7 @@ impl<R: io::Read> Parse<R> for Option<Bytes> {
         let len = usize::try_from(len).map_err(|_| {
             ParseError::format("data block large for this system")
         })?;
-        let mut bits = vec![0u8; len];
-        source.read_exact(&mut bits)?;
+        let bits = read_vec(source, len)?;
         Ok(Some(bits.into()))
     }
 }
